@@ -47,6 +47,7 @@ type frame struct {
 	panicking        bool
 	panic            interface{}
 	visits           map[int]int
+	phisDone         bool
 	thread           *Thread
 }
 
@@ -255,7 +256,11 @@ func (m *Machine) visitInstr(fr *frame, instr ssa.Instruction) continuation {
 
 	case *ssa.If:
 		succ := 1
-		if m.branch(fr.get(instr.Cond).(*Term)) {
+		cond := fr.get(instr.Cond).(*Term)
+		if !cond.IsConst() && m.spec == 0 && m.replayModel == nil && m.tryIfConvert(fr, instr, cond) {
+			return kJump
+		}
+		if m.branch(cond) {
 			succ = 0
 		}
 		fr.prevBlock, fr.block = fr.block, fr.block.Succs[succ]
@@ -605,6 +610,10 @@ func (m *Machine) executePhis(fr *frame) []ssa.Instruction {
 		}
 	}
 	nonPhis := fr.block.Instrs[firstNonPhi:]
+	if fr.phisDone {
+		fr.phisDone = false
+		return nonPhis
+	}
 	if firstNonPhi > 0 {
 		phis := fr.block.Instrs[:firstNonPhi]
 		predIndex := slices.Index(fr.block.Preds, fr.prevBlock)
